@@ -395,6 +395,12 @@ class SymEx:
         if e.op == 'initlist' and len(e.k) == 1:
             return self.eval(st, e.k[0])
         if e.op == 'initlist' and len(e.k) == 0:
+            t = ir.strip_cvref(ftype or '')
+            if t.startswith('std::array'):
+                m = re.search(r',\s*(\d+)>$', t)
+                return ('vzeros', num(int(m.group(1)))) if m else vempty()
+            if is_vector_type(t):
+                return vempty()
             return ZERO
         return self.eval(st, e)
 
@@ -994,7 +1000,10 @@ class SymEx:
             if uses_in(list(body.k[:k]) + [asg.k[1]] + tail + rest):
                 return None
             stopc = N('un', [flagvar()], loc=loc, o='!', ty='bool') if pos else flagvar()
-            brk = N('if', [stopc, N('block', [N('break', loc=loc)], loc=loc)], loc=loc)
+            # the increment still runs once before the condition fails: keep it when the counter outlives the loop
+            keep_inc = [N('expr', [s.k[2]], loc=loc)] if s.op == 'for' and s.k[2] is not None and \
+                not (s.k[0] is not None and s.k[0].op == 'decl') else []
+            brk = N('if', [stopc, N('block', keep_inc + [N('break', loc=loc)], loc=loc)], loc=loc)
             nbody = N('block', list(body.k[:k + 1]) + [brk] + rest, loc=body.loc, cid=body.cid)
         elif last is not None and last.op == 'if' and (len(last.k) < 3 or last.k[2] is None):
             # form (b): `...; if (C) { flag = false; }`
@@ -1007,7 +1016,9 @@ class SymEx:
                 return None
             if uses_in(list(body.k[:-1]) + [last.k[0]] + tail):
                 return None
-            nthen = N('block', [stmts[0], N('break', loc=loc)], loc=loc)
+            keep_inc = [N('expr', [s.k[2]], loc=loc)] if s.op == 'for' and s.k[2] is not None and \
+                not (s.k[0] is not None and s.k[0].op == 'decl') else []
+            nthen = N('block', [stmts[0]] + keep_inc + [N('break', loc=loc)], loc=loc)
             nlast = N('if', [last.k[0], nthen], loc=last.loc, cid=last.cid)
             nbody = N('block', list(body.k[:-1]) + [nlast], loc=body.loc, cid=body.cid)
         else:
@@ -1410,6 +1421,22 @@ class SymEx:
                         else:
                             submap[info['pre']] = mul(info['init'], ('prod', kk, lo, isym, bk))
                         changed = True
+                if info['kind'] in ('append', 'append2') and info['pre'] not in submap:
+                    # a container that grows in every iteration and is read by another carried location (a
+                    # scratch vector declared outside the loop and never cleared): at the start of iteration i it
+                    # holds what iterations lo .. i-1 appended
+                    b0 = subst(info['body'], submap)
+                    g0 = subst(info.get('guard', TRUE), submap)
+                    if not contains(b0, lambda t: t in all_pres) and not contains(g0, lambda t: t in all_pres):
+                        kk = sym('%s<%s' % (isym[1], info['label']))
+                        if info['kind'] == 'append':
+                            submap[info['pre']] = ('vcomp', info['init'], kk, lo, isym, subst(g0, {isym: kk}),
+                                                   subst(b0, {isym: kk}))
+                        else:
+                            k2, lo2, hi2 = info['inner']
+                            submap[info['pre']] = ('vcomp2', info['init'], kk, lo, isym, k2, subst(lo2, {isym: kk}),
+                                                   subst(hi2, {isym: kk}), subst(g0, {isym: kk}), subst(b0, {isym: kk}))
+                        changed = True
         for info in ls.updates.values():
             if info['kind'] in ('sum', 'prod', 'map', 'append', 'append2', 'last', 'scatter') and 'body' in info:
                 b = subst(info['body'], submap)
@@ -1563,9 +1590,27 @@ class SymEx:
             info['kind'] = 'last'
             info['body'] = nxt
             return
+        # element-wise block copy `v[c + i] = w[a + i]` (w may be v itself): std::copy spelled as a loop
+        if isinstance(nxt, tuple) and nxt[0] == 'vupd' and nxt[1] == pre and isinstance(nxt[3], tuple) and \
+                nxt[3][0] == 'sel' and (nxt[3][1] == pre or not contains(nxt[3][1], lambda t: t in all_pres)):
+            c_ = T.offset_from(nxt[2], isym)
+            a_ = T.offset_from(nxt[3][2], isym)
+            if c_ is not None and a_ is not None and not occurs(c_, isym) and not occurs(a_, isym) and \
+                    not contains(c_, lambda t: t in all_pres) and not contains(a_, lambda t: t in all_pres) and \
+                    T.canon(c_) != T.canon(a_):
+                src = info['init'] if nxt[3][1] == pre else nxt[3][1]
+                info['kind'] = 'blockcopy'
+                info['body'] = nxt
+                info['final'] = ('vcopy', info['init'], add(c_, lo), src, add(a_, lo), add(a_, hi))
+                return
         info['kind'] = 'havoc'
         info['why'] = 'no map/reduce/append idiom'
         info['final'] = ('havoc', ls.id, info['label'])
+        if isinstance(nxt, tuple) and nxt[0] == 'vcopy' and nxt[1] == pre and \
+                not any(occurs(x, pre) for x in (nxt[2], nxt[4], nxt[5])):
+            # one block copy per iteration (e.g. the first dimension replicated to the others): not an idiom
+            # with a closed form here, but the rules can read the block parameters
+            info['copy'] = {'dst': nxt[2], 'src': nxt[3], 'self': nxt[3] == pre, 'a': nxt[4], 'b': nxt[5]}
         try:
             # a body that only overwrites elements keeps the size of the container
             if size(nxt) == size(pre) and size(pre) != ('size', pre):
@@ -2043,6 +2088,10 @@ class SymEx:
             if not real:
                 if t.startswith('std::array'):
                     m = re.search(r',\s*(\d+)>$', t)
+                    if not (e.a.get('zeroing') or e.a.get('listinit')) and \
+                            not re.match(r'std::array<\s*(hep|std)::', t):
+                        # default-initialised array of scalars: the elements are indeterminate
+                        return ('undef', None, None)
                     return ('vzeros', num(int(m.group(1)))) if m else vempty()
                 return vempty()
             vals = [self.eval(st, a) for a in real]
@@ -2067,7 +2116,7 @@ class SymEx:
             vals = [self.eval(st, a) for a in args if a.op != 'defaultarg']
             sid = self.fresh('fstream')
             self.effect(st, 'open', stream=sid, path=vals[0] if vals else None, type=t,
-                        where=e.where(), node=e.cid)
+                        mode=vals[1] if len(vals) > 1 else None, where=e.where(), node=e.cid)
             return ('stream', sid)
         if 'stringstream' in t:
             return ('stream', self.fresh('sstream'))
